@@ -370,6 +370,22 @@ class Interp:
                 v = None
             if v is not None and v >= 0:
                 return ("k", v)
+        # constant re-association (values as mathematical integers; each machine operation has its own overflow obligation):
+        # (x + a) - b = x + (a - b) for a >= b, (x + a) + b = x + (a + b)
+        def split_add(t_):
+            if t_[0] == "Add" and t_[1][0] == "k" and t_[1][1] is not None:
+                return t_[2], t_[1][1]
+            if t_[0] == "Add" and t_[2][0] == "k" and t_[2][1] is not None:
+                return t_[1], t_[2][1]
+            return None
+        if op in ("Add", "Sub") and tb[0] == "k" and tb[1] is not None and split_add(ta):
+            x_, a_ = split_add(ta)
+            n_ = a_ + tb[1] if op == "Add" else a_ - tb[1]
+            if n_ >= 0:
+                op, ta, tb = "Add", x_, ("k", n_)
+        elif op == "Add" and ta[0] == "k" and ta[1] is not None and split_add(tb):
+            x_, a_ = split_add(tb)
+            ta, tb = x_, ("k", a_ + ta[1])
         if op in ("Add", "Mul") and repr(ta) > repr(tb):
             ta, tb = tb, ta
         t = (op, ta, tb)
